@@ -6,6 +6,7 @@ import (
 	"fmt"
 	"os"
 	"os/exec"
+	"path/filepath"
 	"regexp"
 	"sort"
 	"strings"
@@ -42,7 +43,21 @@ var c11pool7 = map[int]string{
 	6: "(((A:1,E:2):0.5,F:1):1,((C:1,B:1):1,D:1):1,G:2);",
 }
 
+// 12 taxa: a caterpillar whose taxon A jumps to the other end in the bootstrap trees (a "rogue" taxon: every deep
+// branch is at transfer distance 1 and it is always A that moves - the moved-taxa statistics need depth >= 5)
+const c11ref12 = "((((((((((A:1,B:1):1,C:1):1,D:1):1,E:1):1,F:1):1,G:1):1,H:1):1,I:1):1,J:1):1,K:1,L:1);"
+
+var c11pool12 = map[int]string{
+	0: c11ref12,
+	1: "((((((((((B:1,C:1):1,D:1):1,E:1):1,F:1):1,G:1):1,H:1):1,I:1):1,J:1):1,K:1):1,A:1,L:1);",
+	2: "((((((((B:1,C:1):1,D:1):1,E:1):1,F:1,G:1):1,H:1):1,I:1):1,J:1):1,(K:1,A:1):1,L:1);",
+	6: "((((((((((B:1,C:1):1,D:1):1,E:1):1,F:1):1,G:1):1,H:1):1,I:1):1,J:1):1,(A:1,K:1):1):1,L:1);",
+}
+
 func (s c11scn) ref() string {
+	if s.Taxa12 {
+		return c11ref12
+	}
 	if s.Taxa7 {
 		return c11ref7
 	}
@@ -50,6 +65,11 @@ func (s c11scn) ref() string {
 }
 
 func (s c11scn) pool(i int) string {
+	if s.Taxa12 {
+		if t, ok := c11pool12[i]; ok {
+			return t
+		}
+	}
 	if s.Taxa7 {
 		if t, ok := c11pool7[i]; ok {
 			return t
@@ -71,6 +91,7 @@ type c11scn struct {
 	Choices  []int  `json:"choices,omitempty"` // schedule of the failing execution
 	Ops      []int  `json:"ops,omitempty"`     // hashmap family: operation codes per thread
 	Taxa7    bool   `json:"seven_taxa,omitempty"`
+	Taxa12   bool   `json:"twelve_taxa,omitempty"`
 	Deep     bool   `json:"yield_at_every_call,omitempty"` // every function entry / loop iteration of the worker threads is a scheduling point
 }
 
@@ -90,6 +111,9 @@ func (s c11scn) label() string {
 	}
 	if s.Taxa7 {
 		d += " 7taxa"
+	}
+	if s.Taxa12 {
+		d += " 12taxa"
 	}
 	return fmt.Sprintf("%s seq=%v w=%d tips=%v ident=%v prod=%v%s", s.Fam, s.Seq, s.Workers, s.Tips, s.Ident, s.Producer, d)
 }
@@ -231,6 +255,27 @@ func c11body(s c11scn, obs *string, gotErr *bool) func() {
 			if res.Err != "" {
 				*gotErr = true
 				*obs = "error"
+			}
+		case "tbetaxa":
+			// TBE with the moved-taxa statistics (shared per-taxon and per-branch accumulators, written to the log file)
+			in := c11input(s)
+			if err := ref.ReinitIndexes(); err != nil {
+				panic(err)
+			}
+			os.MkdirAll(filepath.Join(verifDir(), "build", "tmp"), 0o755)
+			lf, err := os.CreateTemp(filepath.Join(verifDir(), "build", "tmp"), "c11log-")
+			if err != nil {
+				panic(err)
+			}
+			defer os.Remove(lf.Name())
+			raw, err := support.TBE(ref, in, s.Workers, true, true, true, 0.3, lf, nil)
+			lf.Close()
+			*gotErr = err != nil
+			if err != nil {
+				*obs = "error"
+			} else {
+				b, _ := os.ReadFile(lf.Name())
+				*obs = ref.Newick() + " raw=" + raw.Newick() + " log=" + string(b)
 			}
 		case "pipeline":
 			// text -> ReadMultiTrees (reader goroutine) -> Compare
@@ -499,6 +544,15 @@ func c11scenarios(quick bool) []c11scn {
 			add(c11scn{Fam: fam, Seq: []int{1, 6}, Workers: 2, Bound: 2, Switch: 1, NumCPU: 16, Deep: true})
 		}
 	}
+	// TBE with moved-taxa statistics: shared accumulators
+	for _, w := range []int{2, 3} {
+		add(c11scn{Fam: "tbetaxa", Seq: []int{1, 6}, Workers: w, Bound: 1, Switch: 1, NumCPU: 16, Taxa7: true})
+		add(c11scn{Fam: "tbetaxa", Seq: []int{6, 2, 1}, Workers: w, Bound: 1, Switch: 1, NumCPU: 16, Taxa7: true})
+	}
+	add(c11scn{Fam: "tbetaxa", Seq: []int{1, 6}, Workers: 2, Bound: 1, Switch: 1, NumCPU: 16, Taxa7: true, Deep: true})
+	add(c11scn{Fam: "tbetaxa", Seq: []int{0, 5, 1}, Workers: 2, Bound: 1, Switch: 1, NumCPU: 16, Taxa7: true})
+	add(c11scn{Fam: "tbetaxa", Seq: []int{1, 6, 2}, Workers: 2, Bound: 1, Switch: 1, NumCPU: 16, Taxa12: true})
+	add(c11scn{Fam: "tbetaxa", Seq: []int{1, 1, 6}, Workers: 3, Bound: 1, Switch: 1, NumCPU: 16, Taxa12: true})
 	// the commands themselves (in-process CLI): an erroneous tree at each position of the compared / bootstrap file
 	for _, fam := range []string{"cli-compare", "cli-wcompare", "cli-binary", "cli-fbp", "cli-tbe"} {
 		for _, w := range []int{1, 2} {
@@ -801,7 +855,7 @@ func init() {
 		Rule: "closed scenarios (driver feeds 1-3 trees from a pool incl. erroneous / taxon-mismatched / duplicate-tip trees at every position into Compare, CompareWeighted, FBP, TBE, ReadMultiTrees->Compare with 1-3 workers; the commands `compare trees [--weighted|--binary]`, `compute support fbp|tbe` run in-process with -t 1..2 on files with a malformed / taxon-mismatched tree at each position; hashmap with 2-3 threads x 1-2 ops on colliding keys) x every goroutine schedule within the deviation bound " +
 			"(scheduling points: every channel, mutex, RWMutex, WaitGroup, atomic operation, goroutine start, and a yield before each statement of a worker body that touches a variable written by a goroutine; statement-level yields inside hashmap); " +
 			"oracle per execution: terminates normally, per-tree records identical to the single-threaded run, error reaches the caller, hashmap history linearizable w.r.t. a plain map; non-trivial = scenario with >= 2 workers and >= 2 executions",
-		Require:     []string{"valid_results:compare", "valid_results:wcompare", "valid_results:fbp", "valid_results:tbe", "valid_results:pipeline", "valid_results:cli-compare", "valid_results:cli-wcompare", "valid_results:cli-binary", "valid_results:cli-fbp", "valid_results:cli-tbe", "litmus_programs", "race_pass_executions"},
+		Require:     []string{"valid_results:compare", "valid_results:wcompare", "valid_results:fbp", "valid_results:tbe", "valid_results:pipeline", "valid_results:tbetaxa", "valid_results:cli-compare", "valid_results:cli-wcompare", "valid_results:cli-binary", "valid_results:cli-fbp", "valid_results:cli-tbe", "litmus_programs", "race_pass_executions"},
 		Assumptions: []string{"channel/mutex/WaitGroup model of mcrt (validated by the litmus suite)", "plain memory accesses are sequentially consistent between scheduling points; unsynchronised accesses are the business of the separate free-running -race pass", "no partial-order reduction"},
 		Run: func(c *Ctx) {
 			defer cliCleanup()
